@@ -246,7 +246,9 @@ text=("Model of Glob (component loop, literal fast path, directory scan with the
               "left open, reader accepts (here-document corpus + generated programs x 3 Configs). Token level: C02's completeness. Words of literal quotings "
               "(Lex/Reprint.v): proved for every text the word scanner accepts (plain characters, the three quotings, escapes, line continuations, any Unicode scalar "
               "values) that the parts it returns, written in the printer's notation, are scanned back to exactly the same parts and rest; the notation model is compared "
-              "with printer.Fprint on every run (handler rword: all texts of <=4 symbols and random longer ones). NOT modelled / not "
+              "with printer.Fprint on every run (handler rword: all texts of <=4 symbols and random longer ones); the same theorem with simple parameter expansions "
+              "($name, $1, $@ ..., outside and inside double quotes) on a rune-level scanner model (Lex/Reprint2.v), tied the same way; the printer's notation for "
+              "braced expansions is modelled too (print_pexp, compared on constructed nodes) and is where open finding F64 is a theorem. NOT modelled / not "
               "proved: quoting of words with expansions, separators and layout under the 256 styles; decided on every run by the round trip itself: generated programs + "
               "corpora x 16 pairwise-covering Configs (every 16th and the corpus: all 256): the printed text must be accepted with the same skeleton."),
         note=BASE_NOTE + "Modelled, not verified: the printer apart from its here-document bookkeeping and its notation for words of literal quotings.",
